@@ -29,6 +29,47 @@ type c20Case struct {
 	Mode   string   `json:"mode"`   // typed | chunked | paste
 	Chunks []int    `json:"chunks"` // read sizes, cycled
 	EOFAt  int      `json:"eof_at"` // byte offset at which the reader reports EOF (-1: after the last byte)
+	// EditSeed != 0 (typed / chunked only): the typist makes corrections with the
+	// line editor - a wrong rune erased with backspace, two runes typed in the
+	// wrong order and fixed with cursor-left, a junk word erased with ^W. The
+	// net text of every line is unchanged.
+	EditSeed uint64 `json:"edit_seed,omitempty"`
+}
+
+// typed renders token t as keystrokes, with corrections drawn from *x (xorshift state; 0 = none).
+func typed(t string, x *uint64, wordStart bool) string {
+	if *x == 0 {
+		return t
+	}
+	next := func(n int) int {
+		*x ^= *x << 13
+		*x ^= *x >> 7
+		*x ^= *x << 17
+		return int(*x % uint64(n))
+	}
+	var sb strings.Builder
+	if wordStart && next(12) == 0 {
+		sb.WriteString([]string{"junk", "x;y", "'q"}[next(3)])
+		sb.WriteByte(23) // ^W
+	}
+	rs := []rune(t)
+	for i := 0; i < len(rs); i++ {
+		switch k := next(16); {
+		case k == 0:
+			sb.WriteString([]string{"x", ";", "'", "\"", "\u00e9", "\u4e16", "\U0001F600"}[next(7)])
+			sb.WriteString([]string{"\x7f", "\x08"}[next(2)])
+			sb.WriteRune(rs[i])
+		case k == 1 && i+1 < len(rs):
+			sb.WriteRune(rs[i+1])
+			sb.WriteString([]string{"\x1b[D", "\x02"}[next(2)])
+			sb.WriteRune(rs[i])
+			sb.WriteString([]string{"\x1b[C", "\x06", "\x1b[F", "\x05"}[next(4)])
+			i++
+		default:
+			sb.WriteRune(rs[i])
+		}
+	}
+	return sb.String()
 }
 
 type simTTY struct {
@@ -69,12 +110,16 @@ func (s *simTTY) Write(p []byte) (int, error) { return len(p), nil }
 func (c *c20Case) stream() (data []byte, ends []int) {
 	var sb strings.Builder
 	paste := c.Mode == "paste"
+	edit := c.EditSeed
+	if paste {
+		edit = 0
+	}
 	for i, toks := range c.Stmts {
 		if paste {
 			sb.WriteString("\x1b[200~")
 		}
 		for j, t := range toks {
-			sb.WriteString(t)
+			sb.WriteString(typed(t, &edit, true))
 			sb.WriteString(c.Sep[i][j])
 		}
 		sb.WriteString(";")
@@ -124,7 +169,7 @@ func normalise(s string) string {
 
 // expected: statements whose submitting Enter was delivered before EOF
 func (c *c20Case) expected() []string {
-	data, _ := c.stream()
+	data, ends := c.stream()
 	limit := len(data)
 	if c.EOFAt >= 0 && c.EOFAt < limit {
 		limit = c.EOFAt
@@ -162,6 +207,7 @@ func (c *c20Case) expected() []string {
 		if paste {
 			pos += 6
 		}
+		pos = ends[i] // positions in the keystroke stream (corrections included)
 		if strings.HasSuffix(after, "\r") {
 			if pos <= limit {
 				flush(pos)
@@ -381,6 +427,9 @@ func genC20(seed uint64, thorough bool) *c20Case {
 			c.After[i] = "\r"
 		}
 	}
+	if c.Mode != "paste" && r.Chance(0.2) {
+		c.EditSeed = r.U64() | 1
+	}
 	if r.Chance(0.25) {
 		data, _ := c.stream()
 		c.EOFAt = r.Intn(len(data) + 1)
@@ -422,6 +471,14 @@ func shrinkC20(c *c20Case, sig string) *c20Case {
 				if fails(y) {
 					best, changed = y, true
 				}
+			}
+		}
+		if best.EditSeed != 0 {
+			y := clone(best)
+			y.EditSeed = 0
+			y.EOFAt = -1
+			if fails(y) {
+				best, changed = y, true
 			}
 		}
 		if best.Mode != "typed" {
@@ -492,6 +549,9 @@ func TestVerifC20(t *testing.T) {
 		res.Stats["statements_submitted"] += int64(len(want))
 		res.Stats["bytes"] += int64(len(data))
 		res.Stats["mode_"+c.Mode]++
+		if c.EditSeed != 0 && c.Mode != "paste" {
+			res.Stats["probe_line_editor_corrections"]++
+		}
 		semis, quotes := false, false
 		for _, st := range c.Stmts {
 			for _, tk := range st {
